@@ -1,6 +1,6 @@
 """Process-tier simulator library: the same tape / shrink / worker-summary protocol as
 /verif/sim (Go), for checks whose system under test is a real octosql process."""
-import hashlib, json, os, random, sys, time
+import hashlib, re, json, os, random, sys, time
 
 MASK = (1 << 64) - 1
 
@@ -81,6 +81,17 @@ class Tape:
         while out and out[-1] == 0:
             out.pop()
         return out
+
+
+_HEX = re.compile(r"0x[0-9a-fA-F]+\??")
+_GOR = re.compile(r"goroutine \d+")
+_PLUS = re.compile(r" \+0x[0-9a-fA-F]+")
+
+
+def norm_err(text):
+    """stderr of a real binary, made repeatable: a Go panic prints addresses and goroutine ids that differ
+    between two executions of the same scenario"""
+    return _GOR.sub("goroutine N", _HEX.sub("0x?", _PLUS.sub("", text)))
 
 
 class Run:
